@@ -401,6 +401,9 @@ impl<'a> Printer<'a> {
                     let mut t = format!("{n}");
                     if self.lay.enabled && *n >= 1000 && self.rng.chance(1, 2) {
                         t = format!("{}_{}", n / 1000, format!("{:03}", n % 1000));
+                    } else if self.lay.enabled && !self.in_slot && self.rng.chance(1, 12) {
+                        // zero padding is layout, too: int literals are always decimal
+                        t = format!("{}{t}", ["0", "00", "0_"][self.rng.usize_below(3)]);
                     }
                     self.word(&t);
                 }
